@@ -906,6 +906,10 @@ func (c ConditionsSet) invert() ConditionsSet {
 	conds := ConditionsSet{}
 	for _, cc := range c {
 		conds = conds.And(cc.invert())
+		if len(conds) > 1 {
+			// keep the intermediate products small, they grow exponentially otherwise
+			conds = conds.Clean()
+		}
 	}
 	return conds
 }
